@@ -4,7 +4,7 @@
    every explored definition (and which Model.Propagate is compared with). *)
 From Coq Require Import ZArith List Bool Znumtheory.
 Require Import Model.Base Model.Field Model.Ir Model.Propagate Model.Justify.
-Require Import Spec.FieldSpec Spec.ValueSem Proofs.ValueProofs.
+Require Import Model.SsaCheck Spec.FieldSpec Spec.ValueSem Spec.SsaSpec Spec.SsaRun Proofs.ValueProofs Proofs.SsaRunProofs.
 Import ListNotations.
 Local Open Scope Z_scope.
 
@@ -17,6 +17,30 @@ Theorem C06_validated_graph_claims_true : forall p c s0 s e v k,
   occurs_in c e -> evalR p s e v -> expr_val e = Some k -> claim_ok k v.
 Proof. exact validated_graph_claims_true. Qed.
 Print Assumptions C06_validated_graph_claims_true.
+
+(* the same along CONCRETE executions of the SSA graph: walk any path from the
+   entry; a phi copies the argument whose version arrives along the edge taken
+   (Spec.SsaRun, using the running version map of C14); every claim met is true *)
+Theorem C06_claims_true_along_paths : forall c p s0 pi s e v k,
+  prime p -> 2 < p -> Z.log2 p < 2 ^ 64 ->
+  vjust_cfg p c = true -> init_ok (all_stmts (c_blocks c)) p s0 ->
+  run_path c p (params_map (c_params c)) s0 pi s ->
+  occurs_in c e -> evalR p s e v -> expr_val e = Some k -> claim_ok k v.
+Proof. exact claims_true_along_paths. Qed.
+Print Assumptions C06_claims_true_along_paths.
+
+(* and such executions do not get stuck at a phi: on a graph accepted by the SSA
+   validator, whenever a version of the phi's variable arrives along the edge,
+   it is one of the phi's arguments (an edge that carries NO version is the
+   known finding C06-phi-missing-default) *)
+Theorem C06_phi_arguments_available : forall c idom pi i b L,
+  ssa_check c idom = true -> path_from_entry c (pi ++ [i]) ->
+  exec_path c (params_map (c_params c)) pi = Some L -> nth_error (c_blocks c) i = Some b ->
+  forall s x args n, In s (fst (leading_phis (b_stmts b))) -> phi_parts s = Some (x, args) ->
+  vget L (key_of x) = Some n ->
+  exists a, In a args /\ key_of a = key_of x /\ vn_version a = Some n.
+Proof. exact phi_arguments_available. Qed.
+Print Assumptions C06_phi_arguments_available.
 
 (* `constant branch condition`: a condition claimed always true (false) never evaluates to false (true) *)
 Theorem C06_constant_condition_claim_true : forall p c s0 s e v (b : bool),
